@@ -4,6 +4,7 @@ import (
 	"encoding/json"
 	"fmt"
 	"os"
+	"slices"
 	"sort"
 	"strings"
 
@@ -17,10 +18,11 @@ import (
 func init() { props["C08"] = runC08 }
 
 type c08Case struct {
-	Config string `json:"config"`
-	File   string `json:"file"`
-	Switch string `json:"switch"` // disabled-flag | disabled-config | rule-disable | enabled-flag | enabled-config | offline
-	Name   string `json:"name"`
+	Config     string   `json:"config"`
+	File       string   `json:"file"`
+	RuleEnable []string `json:"rule_enable,omitempty"` // names in an unconditional rule { enable = [...] } block of Config
+	Switch     string   `json:"switch"`                // disabled-flag | disabled-config | rule-disable | enabled-flag | enabled-config | offline
+	Name       string   `json:"name"`
 }
 
 // a configuration enabling every configurable check kind that runs without a server
@@ -113,7 +115,13 @@ func c08Eval(r *hx.Run, cs c08Case) {
 	for _, k := range base {
 		rep := reporterOf(k)
 		switch cs.Switch {
-		case "disabled-flag", "disabled-config", "rule-disable":
+		case "disabled-flag", "disabled-config":
+			// documented precedence: rule { enable } overrides checks { disabled } (and --disabled, which fills it)
+			if rep != cs.Name || slices.Contains(cs.RuleEnable, rep) {
+				want = append(want, k)
+			}
+		case "rule-disable":
+			// rule { disable } takes precedence over rule { enable }
 			if rep != cs.Name {
 				want = append(want, k)
 			}
@@ -122,7 +130,8 @@ func c08Eval(r *hx.Run, cs c08Case) {
 				want = append(want, k)
 			}
 		case "offline":
-			if !online[rep] {
+			// --offline appends the online checks to checks.disabled: the same documented override applies
+			if !online[rep] || slices.Contains(cs.RuleEnable, rep) {
 				want = append(want, k)
 			}
 		}
@@ -217,11 +226,13 @@ func runC08(r *hx.Run, replay string) {
 		name := hx.Pick(rr, checks.CheckNames)
 		sw := hx.Pick(rr, []string{"disabled-flag", "disabled-config", "rule-disable", "enabled-flag", "enabled-config", "offline"})
 		cfgAll := c08AllKinds
+		var ruleEnable []string
 		if rr.Intn(2) == 0 {
 			// rule-level enable lists must not leak other reporters into an --enabled N run
-			cfgAll += fmt.Sprintf("\nrule {\n  enable = [%q, %q]\n}\n", hx.Pick(rr, checks.CheckNames), hx.Pick(rr, []string{"alerts/comparison", "promql/fragile", "alerts/template", "promql/regexp", "rule/label"}))
+			ruleEnable = []string{hx.Pick(rr, checks.CheckNames), hx.Pick(rr, []string{"alerts/comparison", "promql/fragile", "alerts/template", "promql/regexp", "rule/label"})}
+			cfgAll += fmt.Sprintf("\nrule {\n  enable = [%q, %q]\n}\n", ruleEnable[0], ruleEnable[1])
 		}
-		c08Eval(r, c08Case{Config: cfgAll, File: file, Switch: sw, Name: name})
+		c08Eval(r, c08Case{Config: cfgAll, File: file, Switch: sw, Name: name, RuleEnable: ruleEnable})
 
 		cfgText := enConfig(r, rr.Intn(2) == 0)
 		env, err := enLoad(r, cfgText)
